@@ -7,7 +7,7 @@ use crate::faultdb::FaultDb;
 use akd::append_only_zks::DEFAULT_AZKS_KEY;
 use akd::storage::manager::StorageManager;
 use akd::storage::types::{DbRecord, ValueState, ValueStateKey, ValueStateRetrievalFlag};
-use akd::storage::StorageUtil;
+use akd::storage::{Database, StorageUtil};
 use akd::tree_node::{NodeKey, TreeNode, TreeNodeType, TreeNodeWithPreviousValue};
 use akd::{AkdLabel, AkdValue, Azks, AzksValue, NodeLabel};
 use std::sync::atomic::Ordering;
@@ -94,6 +94,7 @@ pub fn show_rec(r: &DbRecord) -> String {
     }
 }
 
+#[derive(Debug)]
 enum Key {
     Azks,
     Node(u64),
@@ -239,7 +240,108 @@ fn reference_answer(rt: &tokio::runtime::Runtime, s: &StState, log: &[DbRecord],
     query(rt, &clone, toks)
 }
 
+/// `o.st.flushprobe <seed>` (C16, "after a flush the next read of the epoch record reflects storage"): the records a
+/// cached manager holds are overwritten in the database BEHIND its back (as another writer on the same database does),
+/// the manager is flushed in every state it can be in — idle, inside a transaction (with and without pending records),
+/// with cache cleaning disabled (an audit is under way), after a sleep that outlives the items — and the next reads
+/// (get and batch_get, epoch record, nodes, value states) must equal uncached reads.  Oracle only: the model has one writer.
+fn flush_probe(ex: &mut Exec, st: &mut L1State, toks: &[&str]) -> Option<String> {
+    let seed: u64 = toks.get(1)?.parse().ok()?;
+    let mut rng = crate::rng::Rng::new(seed ^ 0x51ed_270b_0f1a_5c33);
+    let rt = &st.rt;
+    let mut cases = 0usize;
+    let mut bad: Option<String> = None;
+    for mode in ["default", "long", "tiny"] {
+        for situation in ["idle", "txn-empty", "txn-pending", "cleaning-disabled", "txn-then-commit", "after-sleep"] {
+            let db = FaultDb::new();
+            let mgr = match mode {
+                "tiny" => StorageManager::new(db.clone(), Some(Duration::from_millis(60)), Some(300), Some(Duration::from_millis(2))),
+                "long" => StorageManager::new(db.clone(), Some(Duration::from_secs(600)), None, Some(Duration::from_millis(25))),
+                _ => StorageManager::new(db.clone(), Some(Duration::from_millis(60)), None, Some(Duration::from_millis(25))),
+            };
+            let e0 = 1 + rng.below(5);
+            let old = vec![parse_rec(&format!("azks:3:{e0}"))?, parse_rec(&format!("node:1:{e0}:4"))?, parse_rec(&format!("node:2:{e0}:5"))?, parse_rec(&format!("vs:0:{e0}:1:7"))?];
+            let newer = vec![parse_rec(&format!("azks:5:{}", e0 + 1))?, parse_rec(&format!("node:1:{}:8", e0 + 1))?, parse_rec(&format!("node:2:{}:9", e0 + 1))?, parse_rec(&format!("vs:0:{e0}:1:0"))?];
+            let keys = [Key::Azks, Key::Node(1), Key::Node(2), Key::Vs(0, e0)];
+            let s = StState { db: db.clone(), mgr, cached: true };
+            let r: Result<Vec<String>, akd::errors::StorageError> = rt.block_on(async {
+                s.mgr.batch_set(old.clone()).await?;
+                for k in &keys {
+                    s.get(k).await?; // all cached now
+                }
+                match situation {
+                    "txn-empty" | "txn-pending" | "txn-then-commit" => {
+                        s.mgr.begin_transaction();
+                    }
+                    "cleaning-disabled" => s.mgr.disable_cache_cleaning(),
+                    _ => {}
+                }
+                if situation == "txn-pending" {
+                    s.mgr.set(parse_rec("node:7:1:1").unwrap()).await?;
+                }
+                // another writer on the same database
+                db.inner.batch_set(newer.clone(), akd::storage::DbSetState::General).await?;
+                if situation == "after-sleep" {
+                    tokio::time::sleep(Duration::from_millis(130)).await;
+                }
+                s.mgr.flush_cache().await;
+                if situation == "txn-then-commit" {
+                    s.mgr.commit_transaction().await?;
+                }
+                let mut diffs = vec![];
+                for k in &keys {
+                    let got = show_one(s.get(k).await);
+                    let want = show_one(s.get_direct(k).await);
+                    if got != want {
+                        diffs.push(format!("get {k:?} = {got}, storage holds {want}"));
+                    }
+                }
+                let got: Vec<String> = s.mgr.batch_get::<TreeNodeWithPreviousValue>(&[NodeKey(node_label(1)), NodeKey(node_label(2))]).await?.iter().map(show_rec).collect();
+                let want = vec![show_one(s.get_direct(&Key::Node(1)).await), show_one(s.get_direct(&Key::Node(2)).await)];
+                if show_many(got.clone()) != show_many(want.clone()) {
+                    diffs.push(format!("batch_get nodes = {got:?}, storage holds {want:?}"));
+                }
+                match situation {
+                    "txn-empty" | "txn-pending" => {
+                        let _ = s.mgr.rollback_transaction();
+                    }
+                    "cleaning-disabled" => s.mgr.enable_cache_cleaning(),
+                    _ => {}
+                }
+                Ok(diffs)
+            });
+            cases += 1;
+            match r {
+                Ok(d) if d.is_empty() => {}
+                Ok(d) => {
+                    if bad.is_none() {
+                        bad = Some(format!("cache {mode}, manager {situation}: records cached at epoch {e0}, another writer stores epoch {}, flush_cache, then: {}", e0 + 1, d.join("; ")));
+                    }
+                }
+                Err(e) => {
+                    if bad.is_none() {
+                        bad = Some(format!("cache {mode}, manager {situation}: unexpected storage error {e:?}"));
+                    }
+                }
+            }
+        }
+    }
+    match bad {
+        Some(w) => {
+            ex.fail_tag("C16", "read-after-flush-stale", format!("{:?}: {}", toks, w));
+            Some("FAIL".into())
+        }
+        None => {
+            ex.stats.bump("o.st.flushprobe", "ok");
+            Some(format!("ok {cases}"))
+        }
+    }
+}
+
 pub fn step(ex: &mut Exec, st: &mut L1State, op: &str, toks: &[&str]) -> Option<String> {
+    if op == "o.st.flushprobe" {
+        return flush_probe(ex, st, toks);
+    }
     if !op.starts_with("st.") {
         return crate::exec_l3::step(ex, st, op, toks);
     }
